@@ -149,7 +149,7 @@ func init() {
 		Stages: []Stage{
 			{Name: "conns", Dir: "cmd/application", Pkg: ".", Run: "^TestVerifC17Conns$", Drivers: []string{"app"}, Exports: []string{"lib"}, TimeoutQ: 6 * time.Minute, TimeoutT: 60 * time.Minute},
 			{Name: "proxyheader", Dir: "cmd/application", Pkg: ".", Run: "^TestVerifC17ProxyHeader$", Drivers: []string{"app"}, Exports: []string{"lib"}, TimeoutQ: 6 * time.Minute, TimeoutT: 60 * time.Minute},
-			{Name: "ingest", Pkg: "./pkg/station/lib", Run: "^TestVerifC17Ingest$", Drivers: []string{"lib"}, TimeoutQ: 6 * time.Minute, TimeoutT: 60 * time.Minute},
+			{Name: "ingest", Pkg: "./pkg/station/lib", Run: "^TestVerifC17Ingest$", Drivers: []string{"lib"}, Exports: []string{"cdtls"}, TimeoutQ: 6 * time.Minute, TimeoutT: 60 * time.Minute},
 		},
 		Post: c17Post,
 	})
